@@ -7,8 +7,8 @@ using namespace c15;
 
 namespace
 {
-const double B_TRI_PT = 64, B_TRI_BARY = 64, B_TRI_RECON = 64;
-const double B_CV = 16, B_ROT = 32, B_VA = 16;
+const double B_TRI_PT = 8, B_TRI_BARY = 8, B_TRI_RECON = 8;
+const double B_CV = 16, B_ROT = 64, B_VA = 32, B_VA_REFL = 64, B_VA_INV = 128;
 
 // ------------------------------------------------------------------ triangle
 // The line is aimed at bu*v0 + bv*v1 + bw*v2 for chosen barycentrics, but the
@@ -438,10 +438,10 @@ sub_vecalgo (Ctx& c, uint64_t idx)
     RV<R, N> RF = up<R> (rf), RF2 = up<R> (rf2);
     RV<R, N> re = Tt * (2 * dot (Tt, S) / tt) - S; // s - 2 (s - project(t,s))
     double   tols = eps * sl;
-    judge (c, "reflect." + tn + ":value", "reflect." + tn + ".err/(eps*|s|)", (double) len (RF - re), tols, B_VA, idx, desc);
-    judge (c, "reflect." + tn + ":length_changed", "reflect." + tn + ".len/(eps*|s|)", (double) r_abs (len (RF) - r_sqrt (ss)), tols, B_VA, idx, desc);
-    judge (c, "reflect." + tn + ":not_involution", "reflect." + tn + ".inv/(eps*|s|)", (double) len (RF2 - S), tols, B_VA, idx, desc);
-    judge (c, "reflect." + tn + ":normal_component_changed", "reflect." + tn + ".ncomp/(eps*|s|)", (double) r_abs (dot (RF, Tt) - dot (S, Tt)) / tl, tols, B_VA, idx, desc);
+    judge (c, "reflect." + tn + ":value", "reflect." + tn + ".err/(eps*|s|)", (double) len (RF - re), tols, B_VA_REFL, idx, desc);
+    judge (c, "reflect." + tn + ":length_changed", "reflect." + tn + ".len/(eps*|s|)", (double) r_abs (len (RF) - r_sqrt (ss)), tols, B_VA_REFL, idx, desc);
+    judge (c, "reflect." + tn + ":not_involution", "reflect." + tn + ".inv/(eps*|s|)", (double) len (RF2 - S), tols, B_VA_INV, idx, desc);
+    judge (c, "reflect." + tn + ":normal_component_changed", "reflect." + tn + ".ncomp/(eps*|s|)", (double) r_abs (dot (RF, Tt) - dot (S, Tt)) / tl, tols, B_VA_REFL, idx, desc);
     c.sample (kn[k], desc);
 }
 
